@@ -31,9 +31,10 @@ structure Cfg where
 def swrTimeoutOf (configured : Int) : Int :=
   if max configured 0 = 0 then Generated.defaultSWRTimeoutNs else max configured 0
 
-/-- ParseResponse: hop-by-hop fields of the decoded entry are dropped -/
+/-- ParseResponse: the Connection field of the decoded entry (the dump's own "Connection: close" of an
+    HTTP/1.0 entry) is dropped; nothing else — "close" is a connection option, not a field name -/
 def parsedEntry (e : Entry) : Entry :=
-  { e with resp := { e.resp with header := removeHopByHop e.resp.header } }
+  { e with resp := { e.resp with header := Header.del e.resp.header sConnection } }
 
 def respWith (r : Resp) (h : Header) : Resp := { r with header := h }
 
